@@ -14,6 +14,15 @@ use crate::protocol::resp::RespFrame;
 use crate::storage::StorageEngine;
 use crate::storage::commands::executor::LuaCommandAdapter;
 
+/// Longest time a script may run before it is aborted with an error
+const SCRIPT_TIME_LIMIT: std::time::Duration = std::time::Duration::from_secs(5);
+
+/// The time limit is checked every this many VM instructions
+const SCRIPT_HOOK_INSTRUCTIONS: u32 = 10_000;
+
+/// Most memory a single script may allocate
+const SCRIPT_MEMORY_LIMIT: usize = 256 * 1024 * 1024;
+
 /// Command execution context passed from server to Lua engine
 pub struct LuaCommandContext {
     pub db_index: usize,
@@ -149,6 +158,21 @@ impl LuaEngine {
     /// Create Lua context with unified redis.call implementation
     fn create_lua_context(&self, ctx: &LuaCommandContext) -> Result<Lua> {
         let lua = Lua::new();
+        
+        // Scripts run on the command thread: bound their running time and memory so that
+        // one script cannot stop the server from answering everybody else
+        let started = Instant::now();
+        lua.set_hook(
+            mlua::HookTriggers::new().every_nth_instruction(SCRIPT_HOOK_INSTRUCTIONS),
+            move |_lua, _debug| {
+                if started.elapsed() > SCRIPT_TIME_LIMIT {
+                    Err(mlua::Error::RuntimeError("Script execution time limit exceeded".to_string()))
+                } else {
+                    Ok(mlua::VmState::Continue)
+                }
+            },
+        ).map_err(|e| FerrousError::LuaError(e.to_string()))?;
+        lua.set_memory_limit(SCRIPT_MEMORY_LIMIT).map_err(|e| FerrousError::LuaError(e.to_string()))?;
         
         // Remove dangerous functions for sandboxing
         let globals = lua.globals();
